@@ -54,6 +54,7 @@ var commands = map[string]command{
 	"hash-replay":         hashReplay,
 	"chain-replay":        chainReplay,
 	"client-replay":       clientReplay,
+	"transform-replay":    transformReplay,
 }
 
 func main() {
